@@ -46,16 +46,16 @@ type mseParams struct {
 }
 
 func parseMSEParams(m map[string]string) mseParams {
-	p := mseParams{xa: unhex(m["xa"]), xb: unhex(m["xb"]), skeys: hexList(m["skeys"]), ksn: atoi(m["ksn"])}
+	p := mseParams{xa: unhex(m["xa"]), xb: unhex(m["xb"]), skeys: mseHexList(m["skeys"]), ksn: atoi(m["ksn"])}
 	if _, ok := m["kskeys"]; ok {
-		p.kskeys = hexList(m["kskeys"])
+		p.kskeys = mseHexList(m["kskeys"])
 	} else {
 		p.kskeys = p.skeys
 	}
 	return p
 }
 
-func parseChunks(s string) []int {
+func mseParseChunks(s string) []int {
 	var out []int
 	for _, t := range commaList(s) {
 		out = append(out, atoi(t))
@@ -63,7 +63,7 @@ func parseChunks(s string) []int {
 	return out
 }
 
-func hexList(s string) [][]byte {
+func mseHexList(s string) [][]byte {
 	var out [][]byte
 	for _, t := range commaList(s) {
 		out = append(out, unhex(t))
@@ -194,12 +194,12 @@ func resStr(err error, sel uint32) string {
 
 func execHS(p mseParams, m map[string]string) string {
 	padA, padB := unhex(m["pada"]), unhex(m["padb"])
-	ea, eb, a2b, b2a := newDuplex(parseChunks(m["ca"]), parseChunks(m["cb"]))
+	ea, eb, a2b, b2a := newDuplex(mseParseChunks(m["ca"]), mseParseChunks(m["cb"]))
 	sr, restore := installRand()
 	defer restore()
 	cancel := watchdog(5*time.Second, ea, eb)
 	defer cancel()
-	rb := parseChunks(m["rb"])
+	rb := mseParseChunks(m["rb"])
 
 	var wg sync.WaitGroup
 	var resA, resB string
@@ -224,7 +224,7 @@ func execHS(p mseParams, m map[string]string) string {
 		sr.setScript(randScriptIncoming(p.xb, padB, atoi(m["padd"])))
 		s := mse.NewStream(eb)
 		var seen uint32
-		err := s.HandshakeIncoming(getSKeyFunc(hexList(m["keysb"]), m["liar"] == "1"), selectFunc(m["sel"], &seen))
+		err := s.HandshakeIncoming(getSKeyFunc(mseHexList(m["keysb"]), m["liar"] == "1"), selectFunc(m["sel"], &seen))
 		resB = resStr(err, seen)
 		if err != nil {
 			eb.Close()
@@ -261,7 +261,7 @@ type scriptStep struct {
 
 func execIn(p mseParams, m map[string]string) string {
 	padB := unhex(m["padb"])
-	ea, eb, a2b, b2a := newDuplex(nil, parseChunks(m["cb"]))
+	ea, eb, a2b, b2a := newDuplex(nil, mseParseChunks(m["cb"]))
 	sr, restore := installRand()
 	defer restore()
 	cancel := watchdog(5*time.Second, ea, eb)
@@ -279,7 +279,7 @@ func execIn(p mseParams, m map[string]string) string {
 		sr.setScript(randScriptIncoming(p.xb, padB, atoi(m["padd"])))
 		s := mse.NewStream(eb)
 		var seen uint32
-		err := s.HandshakeIncoming(getSKeyFunc(hexList(m["keysb"]), m["liar"] == "1"), selectFunc(m["sel"], &seen))
+		err := s.HandshakeIncoming(getSKeyFunc(mseHexList(m["keysb"]), m["liar"] == "1"), selectFunc(m["sel"], &seen))
 		resB = resStr(err, seen)
 		if err != nil {
 			eb.Close()
@@ -287,7 +287,7 @@ func execIn(p mseParams, m map[string]string) string {
 		}
 		s.Write(unhex(m["pb"]))
 		eb.CloseWrite()
-		gotB = readAllStream(s, parseChunks(m["rb"]))
+		gotB = readAllStream(s, mseParseChunks(m["rb"]))
 	}()
 	wg.Wait()
 	_, readsB := a2b.snapshot()
@@ -297,7 +297,7 @@ func execIn(p mseParams, m map[string]string) string {
 
 func execOut(p mseParams, m map[string]string) string {
 	padA := unhex(m["pada"])
-	ea, eb, a2b, b2a := newDuplex(parseChunks(m["ca"]), nil)
+	ea, eb, a2b, b2a := newDuplex(mseParseChunks(m["ca"]), nil)
 	sr, restore := installRand()
 	defer restore()
 	cancel := watchdog(5*time.Second, ea, eb)
@@ -322,7 +322,7 @@ func execOut(p mseParams, m map[string]string) string {
 		}
 		s.Write(unhex(m["pa"]))
 		ea.CloseWrite()
-		gotA = readAllStream(s, parseChunks(m["rb"]))
+		gotA = readAllStream(s, mseParseChunks(m["rb"]))
 	}()
 	wg.Wait()
 	tapAB, _ := a2b.snapshot()
